@@ -541,6 +541,24 @@ fn directed_prelude(ty: &str, rng: &mut Rng) -> Option<(u64, Vec<Vec<u64>>)> {
                 vec![K_MERGE, rb, 4],
             ]))
         }
+        // a key witnessed by two actors; two removers each saw a different single witness; the two holders
+        // (each applied one of the removes) meet in a merge: nothing is left of the entry on either side
+        "mapor" | "mapmm" | "mapmo" | "mapmv" if rng.below(7) == 0 => Some((1, vec![
+            vec![K_EDIT, ra, 0, 0, 1, m0, 0],            // A: update k0                       (op 0)
+            vec![K_EDIT, rb, 0, 0, 1, m1, 0],            // B: update k0 concurrently          (op 1)
+            vec![K_DELIVER, rc, nodup, 0],               // C learns A's update only
+            vec![K_EDIT, rc, 0, 5],                      // C: rm k0 (saw A's witness)         (op 2)
+            vec![K_SPAWN, 0, 3],                         // fresh D
+            vec![K_DELIVER, 3, nodup, 1],                // D learns B's update only
+            vec![K_EDIT, 3, 0, 5],                       // D: rm k0 (saw B's witness)         (op 3)
+            vec![K_DELIVER, ra, nodup, 0],               // A learns B's update: holds both witnesses
+            vec![K_DELIVER, rb, nodup, 0],               // B learns A's update: holds both witnesses
+            vec![K_DELIVER, ra, nodup, 0],               // A applies C's remove: B's witness is left
+            vec![K_DELIVER, rb, nodup, 1],               // B applies D's remove: A's witness is left
+            vec![K_LAWS, ra, rb, rc],
+            vec![K_MERGE, ra, rb],                       // both witnesses are gone
+            vec![K_MERGE, rb, ra],
+        ])),
         "mapor" | "mapmm" | "mapmo" | "mapmv" => Some(match rng.below(6) {
             // a parked remove travels inside a state to a replica that already holds the update it
             // covers but never received the remove op; then again through an empty relay
